@@ -272,6 +272,33 @@ Proof.
   - exact (batch_opt_total _ _ E).
 Qed.
 
+Lemma Forall2_nth_error {A B} (P : A -> B -> Prop) : forall l1 l2 i a b,
+  Forall2 P l1 l2 -> nth_error l1 i = Some a -> nth_error l2 i = Some b -> P a b.
+Proof.
+  induction l1 as [|x l1 IH]; intros l2 i a b HF H1 H2.
+  - destruct i; discriminate.
+  - inversion HF as [|? y ? l2' Hxy HF']; subst. destruct i as [|i]; cbn [nth_error] in *.
+    + inversion H1; inversion H2; subst. exact Hxy.
+    + eapply IH; eauto.
+Qed.
+
+(** Each protocol violation the property lists is an error of BatchOpt (hence of Batch, Request
+    and ExecContext): wrong header count, wrong item count, a successful item without payload or
+    with the payload of another operation. *)
+Theorem batch_violation_is_error reqs r :
+  (r_count r <> len (r_items r) \/ len (r_items r) <> len reqs \/
+   exists i op it, nth_error reqs i = Some op /\ nth_error (r_items r) i = Some it /\ i_status it = success /\
+     (i_payload it = None \/ exists v, i_payload it = Some v /\ pval_operation v <> op)) ->
+  exists e, batch_opt reqs (TMsg r) = RErr e.
+Proof.
+  intros Hv. pose proof (batch_opt_spec reqs (TMsg r)) as H.
+  destruct (batch_opt reqs (TMsg r)) as [items|e|]; [|exists e; reflexivity|contradiction].
+  exfalso. destruct H as [r' [Hr' [_ (Hc & Hl & HF)]]]. inversion Hr'; subst r'.
+  destruct Hv as [Hv|[Hv|(i & op & it & H1 & H2 & Hs & Hp)]]; [contradiction|contradiction|].
+  pose proof (Forall2_nth_error _ _ _ _ _ _ HF H1 H2 Hs) as [v [Hv Ho]].
+  destruct Hp as [Hp|[v' [Hp Hne]]]; rewrite Hv in Hp; [discriminate|]. inversion Hp; subst. contradiction.
+Qed.
+
 (** * Request *)
 
 (** The one shape of response [Request] (and so [ExecContext]) accepts. *)
@@ -376,6 +403,14 @@ Proof.
       rewrite Hti in Hti'. inversion Hti'; subst. rewrite Hp in Hp'. inversion Hp'. reflexivity.
     + destruct H as ([Hf|Hn] & _); [discriminate|]. exfalso. apply (Hn v). auto.
     + contradiction.
+Qed.
+
+Theorem exec_violation_is_error op rty t :
+  ~ (exists v, single_success op t v /\ p_type v = rty) -> exists e, exec_context true op rty t = RErr e.
+Proof.
+  intros Hn. pose proof (exec_spec true op rty t) as H.
+  destruct (exec_context true op rty t) as [v|e|]; [|exists e; reflexivity|contradiction].
+  exfalso. apply Hn. exists v. tauto.
 Qed.
 
 (** A failed item anywhere in the response: Request / ExecContext return an error reporting it. *)
